@@ -37,7 +37,7 @@ theorem budget_bound_table (ops : List Op)
 /-- without a merge nothing is ever tainted: the bound is unconditional for fork-free / merge-free use -/
 theorem untainted_without_merge (ops : List Op) (hops : ∀ op ∈ ops, NoMerge op)
     (id : Nat) (b : Backoffer) (hb : (run init ops).bs[id]? = some b) : b.tainted = false :=
-  (run_SCover ops (fun b hb => by simp [init] at hb) hops b (List.mem_of_getElem? hb)).2
+  (run_SCover (nm := true) ops (fun b hb => by simp [init] at hb) (fun _ => hops) b (List.mem_of_getElem? hb)).2 rfl
 
 /-- the budget check itself: a call that sleeps was made strictly below the budget (one-step form, any state) -/
 theorem budget_step (s s' : State) (id : Nat) (b : Backoffer) (cfg : Config) (m sl : Int) (e : String)
@@ -79,11 +79,11 @@ theorem single_sleep_bound (s s' : State) (id : Nat) (b : Backoffer) (cfg : Conf
 
 /-! ## exhaustion reports the longest sleeper -/
 
-/-- When a call answers "budget exceeded" with error class `k`: the budget really is exhausted, nothing was slept or
-    recorded, and `k` is the error of the first config in `b.configs` under a name `n` that is a non-excluded kind
-    with the largest accumulated sleep (no other non-excluded kind slept longer); if `b.configs` has no config of that
-    name — or nothing slept at all — it is the caller's own error. -/
-theorem exhausted_reports_longest_partial (s s' : State) (id : Nat) (b : Backoffer) (cfg : Config) (m sl : Int)
+/-- Any state (reachable or not): when a call answers "budget exceeded" with error class `k`, the budget really is
+    exhausted, nothing was slept or recorded, and `k` is the error of the first config in `b.configs` under a name `n`
+    that is a non-excluded kind with the largest accumulated sleep (no other non-excluded kind slept longer); if
+    `b.configs` has no config of that name — or nothing slept at all — it is the caller's own error. -/
+theorem exhausted_answer (s s' : State) (id : Nat) (b : Backoffer) (cfg : Config) (m sl : Int)
     (e k : String) (hb : s.live id = some b) (h : step s (.backoff id cfg m sl e) = (s', .exceeded k)) :
     s' = s ∧ overBudget b cfg.name = true ∧
     ∃ n, k = (match cfgErr b.configs n with | some x => x | none => callerK) ∧
@@ -97,16 +97,18 @@ theorem exhausted_reports_longest_partial (s s' : State) (id : Nat) (b : Backoff
   · exact .inl ⟨hp, hm, he, (longest_ge b.sleepMS).2⟩
   · exact .inr ⟨hn, by rw [← hz]; exact (longest_ge b.sleepMS).2⟩
 
-/-- The property as the text states it: whenever some non-excluded kind has slept, the reported error IS the error of
-    a (config of a) non-excluded kind with maximal accumulated sleep. Holds for every state reached without
-    `UpdateUsingForked`. -/
-theorem exhausted_reports_longest (ops : List Op) (hops : ∀ op ∈ ops, NoMerge op) (s' : State) (id : Nat)
+/-- The property as the text states it, at full strength: after ANY op sequence (clones, forks, merges, resets
+    included), whenever some non-excluded kind has slept, the error reported on exhaustion IS the error of a (config
+    of a) non-excluded kind with maximal accumulated sleep.  (Before /repo commit 08566b3 this failed after
+    `UpdateUsingForked`, which copied `backoffSleepMS` but not `configs`.) -/
+theorem exhausted_reports_longest (ops : List Op) (s' : State) (id : Nat)
     (b : Backoffer) (cfg : Config) (m sl : Int) (e k : String) (hb : (run init ops).live id = some b)
     (h : step (run init ops) (.backoff id cfg m sl e) = (s', .exceeded k)) (hl : 0 < longest b.sleepMS) :
     ∃ n, cfgErr b.configs n = some k ∧ (n, longest b.sleepMS) ∈ b.sleepMS ∧ excl n = none ∧
       ∀ p ∈ b.sleepMS, excl p.1 = none → p.2 ≤ longest b.sleepMS := by
-  obtain ⟨_, _, n, hk, hn⟩ := exhausted_reports_longest_partial _ s' id b cfg m sl e k hb h
-  have hcov := (run_SCover ops (fun b hb => by simp [init] at hb) hops b (live_some hb).2.2).1
+  obtain ⟨_, _, n, hk, hn⟩ := exhausted_answer _ s' id b cfg m sl e k hb h
+  have hcov := (run_SCover (nm := false) ops (fun b hb => by simp [init] at hb) (fun hh => by cases hh) b
+    (live_some hb).2.2).1
   rcases hn with ⟨_, hm, he, hmax⟩ | ⟨_, hz⟩
   · refine ⟨n, ?_, hm, he, hmax⟩
     have := hcov _ hm
@@ -114,7 +116,6 @@ theorem exhausted_reports_longest (ops : List Op) (hops : ∀ op ∈ ops, NoMerg
     | none => rw [hc] at this; simp at this
     | some x => rw [hc] at hk; simp only at hk; rw [hk]
   · exfalso
-    have := (longest_ge b.sleepMS)
     -- longest > 0 but every non-excluded entry is ≤ 0: the fold cannot exceed 0
     have key : ∀ (l : AMap) (a : Int), (∀ p ∈ l, p.2 ≤ 0) → a ≤ 0 → l.foldl (fun a p => max a p.2) a ≤ 0 := by
       intro l
@@ -128,14 +129,16 @@ theorem exhausted_reports_longest (ops : List Op) (hops : ∀ op ∈ ops, NoMerg
       key (nonExcl b.sleepMS) 0 (fun p hp => hz p (mem_nonExcl.1 hp).1 (mem_nonExcl.1 hp).2) (Int.le_refl 0)
     omega
 
-/-- Full strength (all op sequences, merges included) — FALSE in the model and in the code, see
-    `exhausted_reports_longest_full_fails`: `UpdateUsingForked` copies `backoffSleepMS` but not `configs`, so
-    `longestSleepCfg` finds no config for a kind only the fork backed off with and the caller's error is returned. -/
-def exhausted_reports_longest_full : Prop :=
-  ∀ (ops : List Op) (s' : State) (id : Nat) (b : Backoffer) (cfg : Config) (m sl : Int) (e k : String),
-    (run init ops).live id = some b →
-    step (run init ops) (.backoff id cfg m sl e) = (s', .exceeded k) → 0 < longest b.sleepMS →
-    ∃ n, cfgErr b.configs n = some k ∧ (n, longest b.sleepMS) ∈ b.sleepMS ∧ excl n = none
+/-- when no non-excluded kind has slept (only possible through the excluded-kind limit, or after a Reset kept the
+    per-kind counters at 0) the caller's own error comes back, unless a config with the empty name was used -/
+theorem exhausted_nothing_slept (ops : List Op) (s' : State) (id : Nat)
+    (b : Backoffer) (cfg : Config) (m sl : Int) (e k : String) (hb : (run init ops).live id = some b)
+    (h : step (run init ops) (.backoff id cfg m sl e) = (s', .exceeded k)) (hl : longest b.sleepMS ≤ 0)
+    (hne : cfgErr b.configs "" = none) : k = callerK := by
+  obtain ⟨_, _, n, hk, hn⟩ := exhausted_answer _ s' id b cfg m sl e k hb h
+  rcases hn with ⟨hp, _⟩ | ⟨hn, _⟩
+  · omega
+  · subst hn; rw [hne] at hk; exact hk
 
 /-! ## cancel and kill -/
 
@@ -236,8 +239,8 @@ theorem clone_starts_from_parent (s : State) (id : Nat) (b : Backoffer) (hb : s.
   · intro j hj; simp only [State.push]; rw [List.getElem?_append_left hj]
 
 /-- `UpdateUsingForked`, descendant case: in any reachable state, if `t` lies on the parent chain of `f` (any
-    distance), then afterwards `t`'s counters equal the fork's — nothing lost, nothing counted twice — its budget,
-    closures, configs and context are untouched, and no third back-offer changes -/
+    distance), then afterwards `t`'s counters and config list equal the fork's — nothing lost, nothing counted twice —
+    its budget, closures and context are untouched, and no third back-offer changes -/
 theorem merge_exact (ops : List Op) (t f : Nat) (b fb : Backoffer)
     (hb : (run init ops).live t = some b) (hfb : (run init ops).live f = some fb)
     (hanc : AncP (run init ops).bs t fb.parent) :
@@ -245,7 +248,8 @@ theorem merge_exact (ops : List Op) (t f : Nat) (b fb : Backoffer)
       (step (run init ops) (.merge t f)).1.bs[t]? = some b' ∧
       b'.totalSleep = fb.totalSleep ∧ b'.excludedSleep = fb.excludedSleep ∧ b'.errorsNum = fb.errorsNum ∧
       b'.sleepMS = fb.sleepMS ∧ b'.times = fb.times ∧
-      b'.maxSleep = b.maxSleep ∧ b'.fns = b.fns ∧ b'.configs = b.configs ∧ b'.ctx = b.ctx ∧ b'.parent = b.parent ∧
+      b'.configs = fb.configs ∧
+      b'.maxSleep = b.maxSleep ∧ b'.fns = b.fns ∧ b'.ctx = b.ctx ∧ b'.parent = b.parent ∧
       (∀ j, j ≠ t → j ≠ f → (step (run init ops) (.merge t f)).1.bs[j]? = (run init ops).bs[j]?) := by
   have hwf := run_WF ops WF_init
   have hcont := (ancestors_iff hwf (live_some hfb).1 t).2 hanc
@@ -274,14 +278,14 @@ theorem merge_exact (ops : List Op) (t f : Nat) (b fb : Backoffer)
   have hstep : step (run init ops) (.merge t f) =
       ((((run init ops).setB t { b with
           totalSleep := fb.totalSleep, excludedSleep := fb.excludedSleep, errorsNum := fb.errorsNum
-          sleepMS := fb.sleepMS, times := fb.times
+          sleepMS := fb.sleepMS, times := fb.times, configs := fb.configs
           tainted := fb.tainted || decide (fb.maxSleep ≤ 0) || decide (fb.maxSleep > b.maxSleep) }).setB f
           { fb with retired := true }), .merged) := by
     simp only [step, hb, hfb, hcont, if_true]
   rw [hstep]
   refine ⟨{ b with
       totalSleep := fb.totalSleep, excludedSleep := fb.excludedSleep, errorsNum := fb.errorsNum
-      sleepMS := fb.sleepMS, times := fb.times
+      sleepMS := fb.sleepMS, times := fb.times, configs := fb.configs
       tainted := fb.tainted || decide (fb.maxSleep ≤ 0) || decide (fb.maxSleep > b.maxSleep) },
     rfl, ?_, rfl, rfl, rfl, rfl, rfl, rfl, rfl, rfl, rfl, rfl, ?_⟩
   · simp only [State.setB]
@@ -303,28 +307,33 @@ theorem merge_ignores_non_descendant (ops : List Op) (t f : Nat) (b fb : Backoff
   simp only [step, hb, hfb, this]
   simp
 
-/-! ## the full-strength longest-sleeper statement fails, and non-vacuity of the hypotheses above -/
+/-! ## non-vacuity of the hypotheses above -/
 
 /-- a config that is not in the table (the witnesses below do not depend on the regenerated literals) -/
 def kcfg : Config := { name := "k", base := 500, cap := 5000, jitter := Gen.noJitter, errK := "kerr" }
 
-/-- fork, back off on the fork, merge back: the parent now owns `sleepMS = {k: 500}` but `configs = []` -/
+/-- fork, back off on the fork only, merge back: the parent owns `sleepMS = {k: 500}` and the fork's configs -/
 def mergeOps : List Op := [.newPlain 50, .fork 0, .backoff 1 kcfg (-1) 500 "-", .merge 0 1]
 
-theorem exhausted_reports_longest_full_fails : ¬ exhausted_reports_longest_full := by
-  intro h
-  have hm : ((run init mergeOps).live 0).map (fun b => (b.configs, decide (0 < longest b.sleepMS))) = some ([], true) := by
-    decide +kernel
-  obtain ⟨b, hb, hbc⟩ := Option.map_eq_some_iff.1 hm
-  simp only [Prod.mk.injEq, decide_eq_true_eq] at hbc
-  obtain ⟨n, hn, _⟩ := h mergeOps (step (run init mergeOps) (.backoff 0 kcfg (-1) 0 "caller")).1 0
-    b kcfg (-1) 0 "caller" "caller" hb
-    (by
-      have : (step (run init mergeOps) (.backoff 0 kcfg (-1) 0 "caller")).2 = .exceeded "caller" := by decide +kernel
-      rw [← this])
-    hbc.2
-  rw [hbc.1] at hn
-  simp [cfgErr] at hn
+-- exhausted_reports_longest after a merge: the exhausted parent reports the kind only the fork backed off with
+-- (the input of the former finding C20-merge-drops-configs), and the caller's error is no longer accepted
+example : ((run init mergeOps).live 0).map (fun b => (b.configs, decide (0 < longest b.sleepMS))) =
+      some ([("k", "kerr")], true) ∧
+    (step (run init mergeOps) (.backoff 0 kcfg (-1) 0 "kerr")).2 = .exceeded "kerr" ∧
+    (step (run init mergeOps) (.backoff 0 kcfg (-1) 0 "caller")).2 = .badChoice := by decide +kernel
+
+/-- a config under the first excluded name of the regenerated `isSleepExcluded`, sleeping past that limit at once -/
+def exCfg : Config :=
+  match Gen.isSleepExcluded.head? with
+  | some (n, l) => { name := n, base := max l 2 + 1, cap := max l 2 + 1, jitter := Gen.noJitter, errK := "e" }
+  | none => kcfg
+
+-- exhausted_nothing_slept: the excluded-kind limit is hit while no other kind has slept: the caller's error returns
+example : Gen.isSleepExcluded = [] ∨
+    ((step (run init [.newPlain 1, .backoff 0 exCfg (-1) exCfg.cap "-"]) (.backoff 0 exCfg (-1) 0 "caller")).2 =
+        .exceeded "caller" ∧
+     ((run init [.newPlain 1, .backoff 0 exCfg (-1) exCfg.cap "-"]).live 0).map
+        (fun b => (longest b.sleepMS, cfgErr b.configs "")) = some (0, none)) := by decide +kernel
 
 /-- one sleep over a budget of 50: reachable, untainted, positive budget, and already beyond the budget itself
     (so `budget_bound` is not about an empty set of states, and "+ one step" is needed) -/
@@ -352,7 +361,7 @@ example : ∃ b, (run init sleepOps).bs[0]? = some b ∧ b.tainted = false ∧ 0
 example : ((run init [.newPlain 50]).live 0).isSome = true ∧
     (step (run init [.newPlain 50]) (.backoff 0 kcfg 100 500 "-")).2 = .slept 100 500 0 := by decide +kernel
 
--- exhausted_reports_longest(_partial): a merge-free state whose next call is refused with the longest sleeper's error
+-- exhausted_answer / exhausted_reports_longest: a state whose next call is refused with the longest sleeper's error
 example : ((run init sleepOps).live 0).isSome = true ∧
     (step (run init sleepOps) (.backoff 0 kcfg (-1) 0 "kerr")).2 = .exceeded "kerr" ∧
     (((run init sleepOps).live 0).map fun b => decide (0 < longest b.sleepMS)) = some true := by decide +kernel
